@@ -105,11 +105,12 @@ def judge(c, res):
             parsed = {}
             okfmt = True
             for ln in got.splitlines():
-                m = re.fullmatch(r'(\S+) 0x([0-9a-fA-F]{8,})', ln)
+                # one line per label: a name and its address (any integer spelling; the exact layout is not documented)
+                m = re.fullmatch(r'\s*(\S+?)[\s:=,]+(-?(?:0[xX][0-9a-fA-F]+|\d+))\s*', ln)
                 if not m or m.group(1) in parsed:
                     okfmt = False
                     break
-                parsed[m.group(1)] = int(m.group(2), 16)
+                parsed[m.group(1)] = int(m.group(2), 0) if not m.group(2).lstrip('-').isdigit() else int(m.group(2))
             if not okfmt or parsed != ref[2]:
                 raise env.CaseFailure('cli:labels', '-l file %r does not list exactly the labels %r\n  %s' % (got[:200], ref[2], desc), payload)
         if c['hexoff'] is not None:
